@@ -282,8 +282,12 @@ impl Sm2PrivateKey {
             true => 33,
             false => 65,
         };
-        let c1_bytes = &ciphertext[0..c1_end_index];
         let len = ciphertext.len();
+        // C1 || C3 (32 bytes) || at least one byte of C2
+        if len < c1_end_index + 32 + 1 {
+            return Err(Sm2Error::InvalidFieldLen);
+        }
+        let c1_bytes = &ciphertext[0..c1_end_index];
         let c2_bytes = match model {
             Sm2Model::C1C2C3 => &ciphertext[c1_end_index..(len - 32)],
             Sm2Model::C1C3C2 => &ciphertext[(c1_end_index + 32)..],
